@@ -26,9 +26,19 @@ def violations_of(ctx):
 
 
 def check(prop, tier='quick', seed=0, root=None, overlay=None, write=True, jobs=16):
+    from . import cfg as cfgmod
+    qlog = cfgmod.start_query_log() if tier == 'thorough' else None
     ctx, mod = run_rules(prop, tier, overlay=overlay, root=root, seed=seed, quiet=False)
+    cfgmod.QUERY_LOG = None
     selftest = None
     if tier == 'thorough':
+        checked, truncated, mismatches = cfgmod.crosscheck_queries(qlog)
+        ctx.extra['path_queries_crosschecked'] = checked
+        ctx.extra['path_queries_truncated'] = truncated
+        if mismatches:
+            r = ctx.rule('ENGINE.crosscheck', 'reachability-based path queries agree with bounded path enumeration')
+            for m in mismatches:
+                r.undecided('<engine>', m)
         from . import selftest as st
         selftest = st.run(prop, mod, root=root, jobs=jobs)
         if hasattr(mod, 'thorough'):
